@@ -66,7 +66,14 @@ impl<'a> Parser<'a> {
     /// Parse the regex and return an expression (AST) and a bit set with the indexes of groups
     /// that are referenced by backrefs.
     pub(crate) fn parse(re: &str) -> Result<ExprTree> {
+        Self::parse_with_case_insensitive(re, false)
+    }
+
+    /// Like `parse`, but optionally starts out in case-insensitive mode as if the pattern was
+    /// prefixed with `(?i)`.
+    pub(crate) fn parse_with_case_insensitive(re: &str, casei: bool) -> Result<ExprTree> {
         let mut p = Parser::new(re);
+        p.update_flag(FLAG_CASEI, !casei);
         let (ix, expr) = p.parse_re(0, 0)?;
         if ix < re.len() {
             return Err(Error::ParseError(
